@@ -3,6 +3,10 @@ import itertools
 
 ALPHA = [b"a", b"1", b"0", b"x", b"e", b".", b'"', b"'", b"`", b"\\", b"\n", b" ", b"#", b"(", b")", b"[", b"]", b"{", b"}", b"+", b"-",
          b"=", b"!", b"<", b"&", b"|", b",", b":", b";", b"*", "é".encode(), b"\xff", b"\t", b"/", b"%", b">", b"_", b"\x00"]
+# multi-byte and control classes: Unicode blanks (NBSP, ideographic space, line separator, NEL), a Unicode digit, the byte-order
+# mark, U+FFFD, a 4-byte rune, other ASCII controls
+UNI = ["\u00a0".encode(), "\u3000".encode(), "\u2028".encode(), "\u0085".encode(), "\u0663".encode(), "\ufeff".encode(),
+       "\ufffd".encode(), "\U0001f600".encode(), "\u4e16".encode(), b"\r", b"\v", b"\f", b"\x7f", b"\x80", b"\xc2"]
 
 
 def gen_inputs(maxlen, alpha=None):
